@@ -333,6 +333,58 @@ def rule_drain(ck, facts):
     ck.floor(R, "drain_loops", n, 2)
 
 
+def rule_closure_lifetime(ck, facts):
+    """a closure handed to the scheduler lives in WASM linear memory until it runs; the memory it was allocated from
+    must not be reclaimed before that"""
+    from .c03 import _w_seq
+    R = "C11.closure-lifetime"
+    ck.rule(R, "WASM: the host function behind `@` keeps the address of the scheduled closure until its sample comes; therefore the exported routine that runs scheduled closures must not give the allocator's memory back when the closure body returns (save / restore of the allocation pointer around the indirect call), because a task that re-schedules itself or another function allocates that closure inside the body")
+    # (1) does a WASM plugin function retain one of its arguments?
+    retaining = []
+    for crate in facts.crate_names():
+        if not crate.startswith("mimium_") or crate in (roles.LANG,):
+            continue
+        for f in facts.crate(crate).fns:
+            if f.kind != "closure" or "wasm" not in f.path:
+                continue
+            from ..rules.chainwalk import taint
+            argc = f.d.get("argc", 0)
+            args = set(range(2, argc + 1))  # closure env is _1
+            T = taint(f, args)
+            for b, t in f.calls():
+                c = callee(t) or ""
+                if c.split("::")[-1] in ("push", "push_back", "insert") and any(k in c for k in ("BinaryHeap", "Vec", "VecDeque", "HashMap", "BTreeMap")):
+                    if any(a[0] in ("cp", "mv") and a[1][0] in T for a in t[5][1:]):
+                        retaining.append((f, t))
+    ck.floor(R, "retaining_plugin_functions", len(retaining), 1)
+    # (2) the executor trampoline template
+    lang = facts.crate(roles.LANG)
+    tr = [f for f in lang.fns if f.short.endswith("WasmGenerator::generate_exec_closure_trampoline")]
+    ck.require(R, len(tr) == 1, "anchor|trampoline", "generator of the exported closure executor not found")
+    if len(tr) != 1 or not retaining:
+        return
+    f = tr[0]
+    seq = _w_seq(facts, f)
+    if not seq:
+        ck.bad(R, "unanalysable|trampoline", "the executor trampoline is no longer a straight-line template", f.where())
+        return
+    names = [n for n, _, _ in seq]
+    saved = None
+    rewinds = None
+    for k, (n, ops, t) in enumerate(seq):
+        if n == "GlobalGet" and "alloc_ptr" in repr(ops) and k + 1 < len(seq) and seq[k + 1][0] == "LocalSet":
+            saved = (repr(seq[k + 1][1]), k)
+        if n == "GlobalSet" and "alloc_ptr" in repr(ops) and k > 0 and seq[k - 1][0] == "LocalGet" and saved and repr(seq[k - 1][1]) == saved[0]:
+            if any(m in ("CallIndirect", "Call") for m in names[saved[1]:k]):
+                rewinds = t
+    key = "executor|generate_exec_closure_trampoline"
+    if rewinds is None:
+        ck.ok(R, key, {"executor": "does not reclaim allocations of the closure body", "retaining": [g.short for g, _ in retaining]})
+    else:
+        g, gt = retaining[0]
+        ck.bad(R, key, "the exported closure executor restores the allocation pointer after the scheduled closure returns, while %s stores the closure address it is given until a later sample: a closure created inside a running task (`a@(now+2.0)` inside `a`) is reclaimed at once and its memory is reused by the next task's closure — with two different self-rescheduling functions the WASM runtime runs the wrong one" % g.short, f.where(rewinds))
+
+
 def run(ck, facts, tier):
     ck.floor("C11.anchor", "scheduler_bodies", len(facts.crate(SCHED).fns), 25)
     rule_queue_types(ck, facts)
@@ -341,4 +393,5 @@ def run(ck, facts, tier):
     rule_guards(ck, facts)
     rule_protocol(ck, facts)
     rule_drain(ck, facts)
+    rule_closure_lifetime(ck, facts)
     ck.not_decided("exactly-once execution over histories, order among tasks due at the same sample, lifetime of scheduled closures")
